@@ -284,11 +284,24 @@ func (b *BloomSearchEngine) Stop(ctx context.Context) error {
 	stopAfter := context.AfterFunc(ctx, b.flushCancel)
 
 	b.stateMu.Lock()
+	// The first Stop on an engine that was never started takes over the
+	// ingest worker's shutdown duty: no worker exists to drain ingestChan, so
+	// the requests queued in it would otherwise never be answered. The drain
+	// is registered in wg under the lock, so every Stop call (this one and
+	// any concurrent one) waits for it exactly like it waits for the workers.
+	drainQueued := !b.stopped && !b.started
+	if drainQueued {
+		b.wg.Add(1)
+	}
 	b.stopped = true
 	b.stateMu.Unlock()
 
 	// Signal workers to stop
 	b.cancel()
+
+	if drainQueued {
+		go b.rejectQueuedRequests()
+	}
 
 	// Wait for workers to finish with timeout
 	done := make(chan struct{})
@@ -305,5 +318,22 @@ func (b *BloomSearchEngine) Stop(ctx context.Context) error {
 	case <-ctx.Done():
 		// Timeout occurred
 		return fmt.Errorf("shutdown timeout exceeded: %w", ctx.Err())
+	}
+}
+
+// rejectQueuedRequests answers every request still sitting in ingestChan with
+// ErrEngineStopped. Stop runs it for an engine that was never started, whose
+// queued requests no worker will ever process; stopped is already set, so no
+// further request can be queued. Like the workers' own deliveries it sends
+// under flushCtx, so only the Stop deadline abandons a blocked waiter.
+func (b *BloomSearchEngine) rejectQueuedRequests() {
+	defer b.wg.Done()
+	for {
+		select {
+		case req := <-b.ingestChan:
+			sendOptionalWithContext(b.flushCtx, req.doneChan, ErrEngineStopped)
+		default:
+			return
+		}
 	}
 }
